@@ -274,6 +274,11 @@ def _line_circle_closest_points(
     delta = line_point + t * line_direction
     line_closest = center + delta
     delta -= np.dot(normal, delta) * normal
+    if np.dot(delta, delta) <= np.finfo(float).eps ** 2 * max(
+            1.0, np.dot(line_closest - center, line_closest - center)):
+        # the point of the line lies on the axis of the circle (up to
+        # rounding): all points of the circle are equally close
+        delta = pr.perpendicular_to_vector(normal)
     delta = norm_vector(delta)
     circle_closest = center + radius * delta
     return line_closest, circle_closest
